@@ -4,7 +4,7 @@
    remote peer can deliver (decoded messages with every field optional and of any length, frame
    classes, read/write failures at any position); [panics i] is the condition under which the Go
    code as it is now panics on i; [panics_gen f] the same with some of the three repairs
-   (c3de1fc, c47eaee, 07b5b6d) removed. *)
+   (c3de1fc, c47eaee, 1f15f90) removed. *)
 From Coq Require Import String List NArith ZArith Bool.
 From MevVerif Require Import lib.Bytes model.NoPanic proofs.NoPanic_proofs.
 Import ListNotations.
